@@ -71,15 +71,16 @@ func matchKnown(kfs []KnownFinding, prop, name string) *KnownFinding {
 }
 
 type checkCtx struct {
-	e      *Engine
-	prop   string
-	tier   string
-	verif  string
-	repo   string
-	obls   []*Obligation
-	fns    []string
-	warns  []string
-	errors []string
+	e       *Engine
+	prop    string
+	tier    string
+	verif   string
+	repo    string
+	obls    []*Obligation
+	fns     []string
+	warns   []string
+	errors  []string
+	assumed []string
 }
 
 func loadKnown(verif string) []KnownFinding {
@@ -137,30 +138,65 @@ func (cc *checkCtx) gather() {
 		}
 		jobs = append(jobs, job{k, fn})
 	}
-	results := make([]*FnResult, len(jobs))
-	parallelDo(len(jobs), runtime.NumCPU(), func(i int) {
-		results[i] = e.VerifyFunction(jobs[i].fn, false)
-	})
-	for i, r := range results {
-		cc.fns = append(cc.fns, jobs[i].key)
-		if r.Err != "" {
-			cc.errors = append(cc.errors, jobs[i].key+": "+r.Err)
-		}
-		for _, w := range r.Warnings {
-			cc.warns = append(cc.warns, jobs[i].key+": "+w)
-		}
-		for _, o := range r.Obls {
-			if otherPropOnly(o.Tags, cc.prop) {
-				continue
+	verified := map[string]bool{}
+	primary := map[string]bool{}
+	for _, j := range jobs {
+		primary[j.key] = true
+	}
+	for round := 0; len(jobs) > 0 && round < 8; round++ {
+		results := make([]*FnResult, len(jobs))
+		parallelDo(len(jobs), runtime.NumCPU(), func(i int) {
+			results[i] = e.VerifyFunctionFor(jobs[i].fn, false, cc.prop)
+		})
+		var next []job
+		for i, r := range results {
+			verified[jobs[i].key] = true
+			cc.fns = append(cc.fns, jobs[i].key)
+			if r.Err != "" {
+				cc.errors = append(cc.errors, jobs[i].key+": "+r.Err)
 			}
-			if o.Kind == "safe" {
-				c := e.contracts[jobs[i].key]
-				if !c.SafeOn && cc.prop != "C13" {
+			for _, w := range r.Warnings {
+				cc.warns = append(cc.warns, jobs[i].key+": "+w)
+			}
+			for _, o := range r.Obls {
+				if otherPropOnly(o.Tags, cc.prop) {
 					continue
 				}
+				if o.Kind == "safe" {
+					c := e.contracts[jobs[i].key]
+					if !c.SafeOn && cc.prop != "C13" {
+						continue
+					}
+				}
+				cc.obls = append(cc.obls, o)
 			}
-			cc.obls = append(cc.obls, o)
+			if r.VC != nil {
+				for a := range r.VC.usedAssumes {
+					cc.assumed = append(cc.assumed, a)
+				}
+				for k := range r.VC.used {
+					if c := e.contracts[k]; c != nil && c.Trusted != "" {
+						cc.assumed = append(cc.assumed, k+": trusted contract ("+c.Trusted+")")
+					}
+				}
+			}
+			// modular closure: contracts relied upon at call sites must themselves be verified
+			if r.VC != nil {
+				for k := range r.VC.used {
+					if verified[k] {
+						continue
+					}
+					verified[k] = true
+					if fn, ok := e.funcs[k]; ok && fn.Blocks != nil {
+						if c := e.contracts[k]; c != nil && c.Trusted == "" && !c.NoVerify {
+							next = append(next, job{k, fn})
+						}
+					}
+				}
+			}
 		}
+		sort.Slice(next, func(i, j int) bool { return next[i].key < next[j].key })
+		jobs = next
 	}
 	// lemmas
 	for _, lm := range e.lemmas {
@@ -426,11 +462,8 @@ func cmdCheck(args []string) int {
 		"go statements, channel operations and timers are not modelled (DESIGN 2.1)",
 		"loops without an invariant are cut with invariant 'true' (sound, weak); termination is not proved",
 	}
-	for _, k := range sortedKeys(e.contracts) {
-		c := e.contracts[k]
-		if c.Trusted != "" && contractHasProp(c, *prop) {
-			trusted = append(trusted, "assumed contract (not verified): "+k+" — "+c.Trusted)
-		}
+	for _, a := range dedup(cc.assumed) {
+		trusted = append(trusted, "assumed, not verified: "+a)
 	}
 	if len(samples) == 0 {
 		for _, o := range cc.obls {
